@@ -29,7 +29,8 @@ RULE = ("case = pooled entry point in {reader selections, level iteration, taste
         "(capped per case in the quick tier, the cap is reported), plus drawn fully random schedules (random W, order, "
         "pull/delivery timing) for every case and for calls above 4 units; every variant must produce byte-identical "
         "files (.npz under the frozen clock), bitwise-identical return values / printed results and the same "
-        "success/failure class; invariant I3 (tasks of one call write disjoint files) is checked on every call. "
+        "success/failure class (for taste on a tree with two defects in two binary files also the text of the report); "
+        "the mandoline tool case may be preceded by a serial slice of another field by another object; invariant I3 (tasks of one call write disjoint files) is checked on every call. "
         "evaluations = cases; non-trivial = at least one variant ran a call with >=2 units in a non-FIFO completion "
         "order or with W>1; distinct = hash(tool, options, world, set of schedule signatures)")
 ASSUMPTIONS = ["whole tasks are the unit of interleaving (sound while I3 holds; I3 is checked)",
